@@ -328,6 +328,7 @@ private:
     int getNodeType() const;
     void read();
     void enter();
+    bool has_text() const;
     /** The whole text of the element entered last: a comment or a processing instruction splits it into several text nodes. */
     std::string elementText;
     bool begin(tag_t, bool skipEmpty = true);
@@ -565,6 +566,18 @@ void XMLReader::enter()
     read();
 }
 
+/**
+ * Whether the element entered last has text: the reader stands on its first text node, which is
+ * classified as white space when a comment follows the leading blanks of the text.
+ */
+bool XMLReader::has_text() const
+{
+    const int type = getNodeType();
+    if (type == XML_READER_TYPE_TEXT)
+        return true;
+    return (type == XML_READER_TYPE_WHITESPACE || type == XML_READER_TYPE_SIGNIFICANT_WHITESPACE) && !is_blank(elementText);
+}
+
 const std::string& XMLReader::get_name(const char* id) const
 {
     if (id) {
@@ -606,7 +619,7 @@ bool XMLReader::declaration()
 {
     if (begin(tag_t::DECLARATION)) {
         enter();
-        if (getNodeType() == XML_READER_TYPE_TEXT) {
+        if (has_text()) {
             parse((const xmlChar*)elementText.c_str(), S_DECLARATION);
         }
         return true;
@@ -623,7 +636,7 @@ bool XMLReader::label(bool required, const std::string& s_kind)
             throw TypeException("A label must have a \"kind\" attribute");
         enter();
         /* Read the text and push it to the parser. */
-        if (getNodeType() == XML_READER_TYPE_TEXT) {
+        if (has_text()) {
             const xmlChar* text = (const xmlChar*)elementText.c_str();
             static const auto map = std::map<std::string_view, xta_part_t>{
                 {"invariant", S_INVARIANT},  {"select", S_SELECT},     {"guard", S_GUARD},
@@ -659,7 +672,7 @@ int XMLReader::invariant(std::string& text, std::string& xpath)
             throw TypeException{"A label must have a \"kind\" attribute"};
         enter();
         /* Read the text. */
-        if (getNodeType() == XML_READER_TYPE_TEXT) {
+        if (has_text()) {
             auto kind_sv = std::string_view{kind};
             if (kind_sv == "invariant")
                 result = 0;
@@ -685,7 +698,7 @@ std::string XMLReader::name(bool instanceLine)
 
 std::string XMLReader::readText(bool instanceLine)
 {
-    if (getNodeType() == XML_READER_TYPE_TEXT) {  // text content of a node
+    if (has_text()) {  // text content of a node
         auto text_sv = std::string_view{elementText};
         tracker.setPath(parser, path.str());
         tracker.increment(parser, text_sv.size());
@@ -704,7 +717,7 @@ std::string XMLReader::readText(bool instanceLine)
 int XMLReader::readNumber()
 {
     enter();
-    if (getNodeType() == XML_READER_TYPE_TEXT) {  // text content of a node
+    if (has_text()) {  // text content of a node
         tracker.setPath(parser, path.str());
         const char* pc = elementText.c_str();
         auto len = elementText.size();
@@ -1130,7 +1143,7 @@ int XMLReader::parameter()
     int count = 0;
     if (begin(tag_t::PARAMETER)) {
         enter();
-        if (getNodeType() == XML_READER_TYPE_TEXT) {
+        if (has_text()) {
             count = parse((const xmlChar*)elementText.c_str(), S_PARAMETERS);
         }
     }
@@ -1229,7 +1242,7 @@ bool XMLReader::instantiation()
     if (begin(tag_t::INSTANTIATION, false)) {
         const auto* text = (const xmlChar*)"";
         enter();
-        if (getNodeType() == XML_READER_TYPE_TEXT)
+        if (has_text())
             text = (const xmlChar*)elementText.c_str();
         parse(text, S_INST);
         return true;
@@ -1243,7 +1256,7 @@ void XMLReader::system()
         const auto* text = (const xmlChar*)"";
         enter();
         auto nodeType = getNodeType();
-        if (nodeType == XML_READER_TYPE_TEXT)
+        if (has_text())
             text = (const xmlChar*)elementText.c_str();
         // if there are no non-space characters in the text (or the text is empty),
         // bison doesn't manage to properly set the position of errors,
